@@ -22,6 +22,8 @@ type MyFloat32 float32
 type MyBool bool
 type MyStr string
 type MyBytes []byte
+type Octet uint8
+type MyOctets []Octet
 type MyInts []int
 type MyStrs []string
 type MyMap map[string]int
@@ -85,6 +87,19 @@ type Tagged struct {
 	Plain  map[string]int
 }
 
+// embedded structs: promoted fields are NOT reachable by pointerstructure (only direct fields)
+type Creds struct {
+	Token  string `bexpr:"-" json:"-"`
+	APIKey string `bexpr:"key" json:"jkey"`
+	Owner  string
+}
+
+type Account struct {
+	Creds
+	ID   int
+	Ptag string `pointer:"pname" bexpr:"bname"`
+}
+
 type HiddenHolder struct {
 	Vis    int
 	Secret string `bexpr:"-"`
@@ -111,7 +126,7 @@ var oddTypes = []reflect.Type{
 }
 
 var structTypes = []reflect.Type{
-	reflect.TypeOf(Inner{}), reflect.TypeOf(Outer{}), reflect.TypeOf(HiddenHolder{}), reflect.TypeOf(Wrap{}), reflect.TypeOf(Tagged{}),
+	reflect.TypeOf(Inner{}), reflect.TypeOf(Outer{}), reflect.TypeOf(HiddenHolder{}), reflect.TypeOf(Wrap{}), reflect.TypeOf(Tagged{}), reflect.TypeOf(Account{}), reflect.TypeOf(Creds{}),
 }
 
 var ifaceType = reflect.TypeOf((*interface{})(nil)).Elem()
